@@ -1092,8 +1092,8 @@ class TypeBlocks(ContainerOperand):
                     if retain_key_order:
                         indices = (self._index[x] for x in key)
                     else:
-                        # sort the (block, column) pairs, not the keys: negative integers in the key would otherwise sort before positive ones
-                        indices = sorted(self._index[x] for x in key) #type: ignore
+                        # sort the unique (block, column) pairs, not the keys: negative integers in the key would otherwise sort before positive ones, and a repeated position would leave the targets after it unconsumed
+                        indices = sorted(set(self._index[x] for x in key)) #type: ignore
                 elif key is None: # get all
                     indices = self._index
                 else:
